@@ -382,6 +382,38 @@ func init() {
 				w.Close()
 			}
 		})
+		// the real expiry loop on a database nobody writes to: a document that crosses the cut-off only because time passes
+		// is removed by a later tick (the ticks are granted by hand; the only wall-clock quantity is the 1 s interval of the
+		// index, the removal itself is awaited for up to 20 s)
+		{
+			w := world.New()
+			cCreateIndex("d", "c", bD("t", int32(1)), idxOpt{expire: i32(1)}).Do(w)
+			inserted := time.Now()
+			_, _ = w.C("d", "c").InsertOne(w.Ctx, bD("_id", "ages", "t", primitive.NewDateTimeFromTime(inserted)))
+			_, _ = w.C("d", "c").InsertOne(w.Ctx, bD("_id", "stays", "t", primitive.NewDateTimeFromTime(inserted.Add(time.Hour))))
+			lungo.VerifGrantTick(w.Engine) // a pass that finds nothing to remove
+			time.Sleep(300 * time.Millisecond)
+			lungo.VerifGrantTick(w.Engine) // and another one
+			for time.Since(inserted) < 2200*time.Millisecond {
+				time.Sleep(100 * time.Millisecond)
+			}
+			gone := false
+			for deadline := time.Now().Add(20 * time.Second); time.Now().Before(deadline) && !gone; {
+				lungo.VerifGrantTick(w.Engine)
+				time.Sleep(200 * time.Millisecond)
+				n, _ := w.C("d", "c").CountDocuments(w.Ctx, bD("_id", "ages"))
+				gone = n == 0
+			}
+			n2, _ := w.C("d", "c").CountDocuments(w.Ctx, bD("_id", "stays"))
+			if !gone {
+				r.Violation("expiry-loop:aged-document-kept", "a document whose date became older than the 1 s interval of its TTL index while nothing was written is still there after 20 s of ticks of the expiry loop", map[string]interface{}{"case": "real loop, idle database"})
+			}
+			if n2 != 1 {
+				r.Violation("expiry-loop:live-document-removed", "the expiry loop removed a document dated one hour ahead", map[string]interface{}{"case": "real loop, idle database"})
+			}
+			r.Set("real_loop_idle_database_case", int64(1))
+			w.Close()
+		}
 		// a TTL option on a compound key is rejected
 		{
 			w := world.New()
